@@ -20,6 +20,20 @@ CHECKS = {
           "outside (DESIGN.md C03)."),
     design_ref="DESIGN.md §6 C03",
     note=TRUST_KANI + " E3 additionally trusts the hand-written MIR->SMT translator (self-validated on every run against the repository's own unit-test vectors) and z3 4.8.12 / cvc5 1.0 agreeing."),
+ "C04": dict(
+    engine="z3-relang (+ kani-real)", category="translation_validation",
+    technique="translation validation by SMT: z3 regular-language equivalence (all string lengths) between the regex the real pattern compiler emits and the POSIX reading, over a bounded-exhaustive pattern family; counterexample strings replayed through the real matcher",
+    text=("For every pattern of a bounded-exhaustive family (all token sequences up to a length bound over the "
+          "metacharacter alphabet, bracket expressions with a probe member over every ASCII punctuation character, "
+          "brackets in context, every class name) and all four anchoring configurations (plus literal_period), z3 "
+          "proves that the language of the regular expression emitted by the real yash-fnmatch translator equals "
+          "the language POSIX pattern notation denotes - for strings of every length. Shortest/longest prefix and "
+          "suffix selection and case's first-match rule are outside (regex search order / command execution)."),
+    design_ref="DESIGN.md §6 C04",
+    note=("Trusted: regex-syntax's parse of the emitted text into HIR (the parser the regex crate uses) and the regex crate "
+          "matching per that HIR; z3 5.1 sequence theory; the reference POSIX reading (e2/relang.py, POSIX locale). The "
+          "is_match glue is hand-modelled and validated natively on solver-produced witnesses on every run. Patterns POSIX "
+          "leaves unspecified are skipped and counted.")),
 }
 
 NOT_APPLICABLE = {
@@ -47,7 +61,7 @@ def main():
             "evidence_file": "/verif/evidence/%s.json" % pid,
             "replay_cmd_template": "./check %s --replay {path}" % pid,
             "engine": c["engine"],
-            "level_claimed": {"category": "model_checking", "text": c["text"], "design_ref": c["design_ref"]},
+            "level_claimed": {"category": c.get("category", "model_checking"), "text": c["text"], "design_ref": c["design_ref"]},
             "level_note": c["note"],
             "technique": c["technique"],
         })
